@@ -19,7 +19,7 @@ Definition zinorm2 (a : ZI) : Z := fst a * fst a + snd a * snd a.
 Lemma ZI_ring : ring_theory zi0 zi1 ziadd zimul zisub ziopp eq.
 Proof.
   constructor; intros; unfold ziadd, zimul, zisub, ziopp, zi0, zi1;
-    repeat match goal with x : ZI |- _ => destruct x end; simpl; f_equal; ring.
+    repeat match goal with x : ZI |- _ => destruct x end; cbn [fst snd]; try (f_equal; ring); try reflexivity.
 Qed.
 
 Lemma zieqb_eq a b : zieqb a b = true <-> a = b.
